@@ -73,9 +73,10 @@ MANIFEST = {
             "for leaf-lists (C07_wd_modes_rfc6243_refuted). Tie: component dfltmodel runs generated modules (defaults, default "
             "leaf-lists, nested choices with default cases, NP / presence containers, lists) x trees from PARSE_ONLY parses and "
             "edit histories (free / change / new path / tagged print parsed back) through lyd_validate_all / "
-            "lyd_new_implicit_all with diff and the five print modes, and the extracted model on the dumped tree before each "
-            "validation: the dump after (default and new flags), the net change list and the printed node sets + tags must be "
-            "identical; the model also evaluates the theorem hypotheses and conclusions (normal form reached, change list "
+            "lyd_new_implicit_all with diff and the five print modes in XML and JSON, and the extracted model on the dumped tree "
+            "before each validation: the dump after (default and new flags), the net change list and - per node instance in "
+            "document order, read with independent readers (expat; python json incl. the RFC 7952 metadata arrays of leaf-lists) - "
+            "the printed nodes + default tags must be identical; the model also evaluates the theorem hypotheses and conclusions (normal form reached, change list "
             "replays to the tree after, flags consistent and sound, canonical input) on every one of these trees. The API oracle "
             "validate-idem checks the same laws through lyd_diff_apply_all.",
     "note": "PARTIAL. Not proved: the normal form for inputs outside Implicit.editedb (nodes that are new AND default, "
@@ -86,7 +87,7 @@ MANIFEST = {
             "vdiff-dupinst). Not modelled: when / must / unique / leafref, several modules (with data of "
             "another module in front libyang inserts a new top-level default node before older siblings of its own module - seen "
             "once, outside Tree.v), LYD_VALIDATE_NO_STATE / NO_DEFAULTS / MULTI_ERROR, the state of the tree after a failed "
-            "validation, LYD_PRINT_KEEPEMPTYCONT in the theorem (tied by the correspondence run only), JSON / LYB printers.",
+            "validation, LYD_PRINT_KEEPEMPTYCONT in the theorem (tied by the correspondence run only), the LYB printer.",
     "technique": "Coq proof about a transcribed functional model and an independent executable RFC spec + differential "
                  "correspondence on libyang dumps with run-time evaluation of the theorem hypotheses + metamorphic API oracle",
 }
